@@ -418,6 +418,10 @@ class Program:
                 self.trait_impls[(tr, it["name"])].append(it["id"])
         self._cg = None
         self._rcg = None
+        # helpers the rules do not know by name are spliced into their callers (vlib/inline.py)
+        from . import inline as _inline
+
+        self.inlined = _inline.apply(self, Body, strip_generics)
 
     # -- lookup helpers
     def find(self, pattern, exactly_one=False):
